@@ -2,6 +2,7 @@ import ObiVerif.Model.Chunk
 import ObiVerif.Model.Fasta
 import ObiVerif.Model.Fastq
 import ObiVerif.Model.FlatFile
+import ObiVerif.Model.Sniff
 import ObiVerif.Driver.Util
 /-! line protocol for C01 (see harness/c01.go for the ops) -/
 namespace ObiVerif.Driver.C01
@@ -90,6 +91,29 @@ def run (line : String) : String :=
       if (f == "fa" || f == "fq1" || f == "gb0" || f == "em0") && (tr == "plain" || tr == "gz") then "same"
       else "bad-op"
     | none => "bad-op"
+  | ["sniff", tr, h, mime] =>
+    -- Ropen + OBIMimeTypeGuesser on a real file; `mime` = what the real code guessed (appended by the harness)
+    match unhex h with
+    | some d =>
+      if !(tr == "plain" || tr == "gz") then "bad-op" else
+      -- gz: the harness compresses `d`; the opener decompresses (gzip layer trusted): the payload is `d`
+      let compressed := tr == "plain" && ObiVerif.Sniff.magic d != .plain
+      let g := if compressed then ObiVerif.Sniff.Mime.other else ObiVerif.Sniff.guess (ObiVerif.Sniff.stripBOM d)
+      if ["text/fasta", "text/fastq", "text/ecopcr2", "text/genbank", "text/embl"].contains mime then
+        if g.name == mime then s!"ok {mime}" else s!"MISMATCH model={g.name}"
+      else if ["text/plain", "application/octet-stream", "text/csv"].contains mime then
+        if g == .other then "ok other" else s!"MISMATCH model={g.name}"
+      else if mime == "empty" then "ok other"
+      else "builtin"
+    | none => "bad-op"
+  | ["pair", hf, hr] =>
+    -- paired reading (PairTo is modelled and proved by C03): as many pairs as records, both files well-formed
+    match unhex hf, unhex hr with
+    | some f, some r =>
+      match parseFastq 33 true f, parseFastq 33 true r with
+      | .ok a, .ok b => if a.length == b.length && a.length > 0 then s!"paired {a.length}" else "bad-op"
+      | _, _ => "bad-op"
+    | _, _ => "bad-op"
   | ["kseq", f, h] =>
     -- oracle-only case (two-parser agreement)
     match unhex h with
